@@ -4,6 +4,11 @@
    freeing a foreign pointer that lies inside the arena (client misbehaviour the pool cannot detect). *)
 From ZV.Common Require Import Base.
 From ZV.C07 Require Import Model ProofsArith ProofsLockFree ProofsProps ProofsBump ProofsFixedCap.
+From ZV.C07 Require Import ModelFive ProofsFiveArith ProofsFive ProofsFiveProps Cases.
+From ZV.C07 Require Import ModelTL ProofsTL ProofsTLProps.
+From ZV.C07 Require Import ModelTiered ProofsTiered ProofsTieredProps.
+From ZV.C07 Require Import ModelSecure ProofsSecure ProofsMemPool.
+From ZV.C07 Require Import ModelMmap ProofsMmap.
 Open Scope N_scope.
 
 (* any two live allocations occupy disjoint byte ranges - for every history and every arena size *)
@@ -154,3 +159,427 @@ Check fixedcap_live_disjoint_within :
        nth_error (flive s) i = Some (o1, k1) -> nth_error (flive s) j = Some (o2, k2) -> disjoint o1 mx o2 mx) /\
     (forall o k, In (o, k) (flive s) -> o + mx <= nb * mx).
 Print Assumptions fixedcap_live_disjoint_within.
+
+(* ------------------------------------------------------------------------------------------- *)
+(* five-level pool family (ModelFive.v)                                                        *)
+(* ------------------------------------------------------------------------------------------- *)
+(* five-level family (NoLockingPool / MutexBasedPool / LockFreePool, sequential / FixedCapacityPool): for every configuration
+   the constructor accepts and every history of alloc / free, live blocks are pairwise disjoint at their full aligned sizes,
+   at least as large as requested, aligned, inside the capacity and addressable by a 32-bit MemOffset *)
+Theorem five_level_inv :
+  forall c ops, new_ok5 Fixed c = true ->
+    let s := final5 Fixed c ops in
+    (forall i j o1 r1 o2 r2, i <> j -> nth_error (live5 s) i = Some (o1, r1) -> nth_error (live5 s) j = Some (o2, r2) ->
+       disjoint o1 (cap5 c r1) o2 (cap5 c r2)) /\
+    (forall o r, In (o, r) (live5 s) ->
+       0 < r /\ r <= cap5 c r /\ o mod f_al c = 0 /\ o + cap5 c r <= f_cap c /\ o + cap5 c r <= U32MAX).
+Proof. exact five_level_inv_proof. Qed.
+Check five_level_inv :
+  forall c ops, new_ok5 Fixed c = true ->
+    let s := final5 Fixed c ops in
+    (forall i j o1 r1 o2 r2, i <> j -> nth_error (live5 s) i = Some (o1, r1) -> nth_error (live5 s) j = Some (o2, r2) ->
+       disjoint o1 (cap5 c r1) o2 (cap5 c r2)) /\
+    (forall o r, In (o, r) (live5 s) ->
+       0 < r /\ r <= cap5 c r /\ o mod f_al c = 0 /\ o + cap5 c r <= f_cap c /\ o + cap5 c r <= U32MAX).
+Print Assumptions five_level_inv.
+
+(* a request beyond the capacity is refused and leaves the pool unchanged, in every reachable state *)
+Theorem five_level_refuses_over_capacity :
+  forall c ops size, new_ok5 Fixed c = true -> f_cap c < size ->
+    alloc5 Fixed c (p5 (final5 Fixed c ops)) size = (None, p5 (final5 Fixed c ops)).
+Proof. exact five_level_refuses_proof. Qed.
+Check five_level_refuses_over_capacity :
+  forall c ops size, new_ok5 Fixed c = true -> f_cap c < size ->
+    alloc5 Fixed c (p5 (final5 Fixed c ops)) size = (None, p5 (final5 Fixed c ops)).
+Print Assumptions five_level_refuses_over_capacity.
+
+(* refusal exactly when the capacity is exceeded: a valid request fails iff its bin is empty and the aligned size does not fit
+   behind the used memory - also for FixedCapacityPool, whose used_memory check in front never refuses a servable request *)
+Theorem five_level_refusal_exact :
+  forall c ops size, new_ok5 Fixed c = true -> 0 < size -> size < W63 ->
+    let p := p5 (final5 Fixed c ops) in
+    let a := cap5 c size in
+    fst (alloc5 Fixed c p size) = None <->
+    ((a <= f_fast c -> pop5 (bin5 c a) (fl5 p) = None) /\ f_cap c < top5 p + a).
+Proof. exact five_level_refusal_exact_proof. Qed.
+Check five_level_refusal_exact :
+  forall c ops size, new_ok5 Fixed c = true -> 0 < size -> size < W63 ->
+    let p := p5 (final5 Fixed c ops) in
+    let a := cap5 c size in
+    fst (alloc5 Fixed c p size) = None <->
+    ((a <= f_fast c -> pop5 (bin5 c a) (fl5 p) = None) /\ f_cap c < top5 p + a).
+Print Assumptions five_level_refusal_exact.
+
+(* size-class round trip: the class of a request holds it; bin index and class size are inverse; the fast-bin guard
+   `bin_index < free_lists.len()` never fails on the fast path; a fresh block is carved at exactly the size of the class
+   it is filed under when freed (or merged back at exactly that size) *)
+Theorem five_level_class_roundtrip :
+  forall c size, new_ok5 Fixed c = true -> 0 < size -> size < W63 ->
+    let a := cap5 c size in
+    let b := bin5 c a in
+    size <= a /\ a < size + f_al c /\ a mod f_al c = 0 /\ cap5 c a = a /\ class5 c b = a /\ bin5 c (class5 c b) = b /\
+    (a <= f_fast c -> b < nbins5 c) /\
+    (forall p r p', alloc5 Fixed c p size = (r, p') -> top5 p' = top5 p \/ (top5 p' = top5 p + class5 c b /\ r = Some (top5 p))) /\
+    (forall p off, a <= f_fast c -> exists p', free5 c p off size = (true, p') /\
+       (fl5 p' = (b, off) :: fl5 p \/ (has_merge (f_kind c) = true /\ off + class5 c b = top5 p /\ top5 p' = off /\ fl5 p' = fl5 p))).
+Proof. exact five_level_class_roundtrip_proof. Qed.
+Check five_level_class_roundtrip :
+  forall c size, new_ok5 Fixed c = true -> 0 < size -> size < W63 ->
+    let a := cap5 c size in
+    let b := bin5 c a in
+    size <= a /\ a < size + f_al c /\ a mod f_al c = 0 /\ cap5 c a = a /\ class5 c b = a /\ bin5 c (class5 c b) = b /\
+    (a <= f_fast c -> b < nbins5 c) /\
+    (forall p r p', alloc5 Fixed c p size = (r, p') -> top5 p' = top5 p \/ (top5 p' = top5 p + class5 c b /\ r = Some (top5 p))) /\
+    (forall p off, a <= f_fast c -> exists p', free5 c p off size = (true, p') /\
+       (fl5 p' = (b, off) :: fl5 p \/ (has_merge (f_kind c) = true /\ off + class5 c b = top5 p /\ top5 p' = off /\ fl5 p' = fl5 p))).
+Print Assumptions five_level_class_roundtrip.
+
+(* freeing a live block is accepted; a fast block that is not merged back is handed out for the next request of its class *)
+Theorem five_level_free_reuse :
+  forall c ops l1 l2 off req, new_ok5 Fixed c = true ->
+    live5 (final5 Fixed c ops) = l1 ++ (off, req) :: l2 ->
+    let p := p5 (final5 Fixed c ops) in
+    exists p', free5 c p off req = (true, p') /\
+      (cap5 c req <= f_fast c -> ~ (has_merge (f_kind c) = true /\ off + cap5 c req = top5 p) ->
+       forall req2, 0 < req2 -> req2 < W63 -> cap5 c req2 = cap5 c req -> fst (alloc5 Fixed c p' req2) = Some off).
+Proof. exact five_level_free_reuse_proof. Qed.
+Check five_level_free_reuse :
+  forall c ops l1 l2 off req, new_ok5 Fixed c = true ->
+    live5 (final5 Fixed c ops) = l1 ++ (off, req) :: l2 ->
+    let p := p5 (final5 Fixed c ops) in
+    exists p', free5 c p off req = (true, p') /\
+      (cap5 c req <= f_fast c -> ~ (has_merge (f_kind c) = true /\ off + cap5 c req = top5 p) ->
+       forall req2, 0 < req2 -> req2 < W63 -> cap5 c req2 = cap5 c req -> fst (alloc5 Fixed c p' req2) = Some off).
+Print Assumptions five_level_free_reuse.
+
+(* a block is re-issued only from the bin of the request's own class, whose block size holds the request *)
+Theorem five_level_reissue_fits :
+  forall c p size o p', new_ok5 Fixed c = true ->
+    alloc5 Fixed c p size = (Some o, p') -> top5 p' = top5 p ->
+    In (bin5 c (cap5 c size), o) (fl5 p) /\ size <= class5 c (bin5 c (cap5 c size)).
+Proof. exact five_level_reissue_fits_proof. Qed.
+Check five_level_reissue_fits :
+  forall c p size o p', new_ok5 Fixed c = true ->
+    alloc5 Fixed c p size = (Some o, p') -> top5 p' = top5 p ->
+    In (bin5 c (cap5 c size), o) (fl5 p) /\ size <= class5 c (bin5 c (cap5 c size)).
+Print Assumptions five_level_reissue_fits.
+
+(* capacity accounting of NoLockingPool / FixedCapacityPool: used_memory is exactly the bytes of the live blocks (its
+   subtractions never underflow) and remaining_capacity() is the capacity minus those bytes *)
+Theorem five_level_used_exact :
+  forall c ops, new_ok5 Fixed c = true -> has_merge (f_kind c) = true ->
+    let s := final5 Fixed c ops in
+    used5 (p5 s) = live_bytes5 c (live5 s) /\ remaining5 c (p5 s) + live_bytes5 c (live5 s) = f_cap c /\
+    live_bytes5 c (live5 s) <= top5 (p5 s) /\ top5 (p5 s) <= f_cap c.
+Proof. exact five_level_used_exact_proof. Qed.
+Check five_level_used_exact :
+  forall c ops, new_ok5 Fixed c = true -> has_merge (f_kind c) = true ->
+    let s := final5 Fixed c ops in
+    used5 (p5 s) = live_bytes5 c (live5 s) /\ remaining5 c (p5 s) + live_bytes5 c (live5 s) = f_cap c /\
+    live_bytes5 c (live5 s) <= top5 (p5 s) /\ top5 (p5 s) <= f_cap c.
+Print Assumptions five_level_used_exact.
+
+(* fragment_size covers every block on a free list, so the `fragment_size -= size` of a pop never underflows (no panic) *)
+Theorem five_level_frag_covers :
+  forall c ops b o, new_ok5 Fixed c = true ->
+    In (b, o) (fl5 (p5 (final5 Fixed c ops))) -> class5 c b <= frag5 (p5 (final5 Fixed c ops)).
+Proof. exact five_level_frag_covers_proof. Qed.
+Check five_level_frag_covers :
+  forall c ops b o, new_ok5 Fixed c = true ->
+    In (b, o) (fl5 (p5 (final5 Fixed c ops))) -> class5 c b <= frag5 (p5 (final5 Fixed c ops)).
+Print Assumptions five_level_frag_covers.
+
+(* the 4-byte free-list link written into a freed block is 4-aligned, inside that block and touches no other live block *)
+Theorem five_link_write_safe :
+  forall c ops i j o1 r1 o2 r2, new_ok5 Fixed c = true -> i <> j ->
+    nth_error (live5 (final5 Fixed c ops)) i = Some (o1, r1) -> nth_error (live5 (final5 Fixed c ops)) j = Some (o2, r2) ->
+    o1 mod 4 = 0 /\ o1 + 4 <= o1 + cap5 c r1 /\ disjoint o1 4 o2 (cap5 c r2).
+Proof. exact five_link_write_safe_proof. Qed.
+Check five_link_write_safe :
+  forall c ops i j o1 r1 o2 r2, new_ok5 Fixed c = true -> i <> j ->
+    nth_error (live5 (final5 Fixed c ops)) i = Some (o1, r1) -> nth_error (live5 (final5 Fixed c ops)) j = Some (o2, r2) ->
+    o1 mod 4 = 0 /\ o1 + 4 <= o1 + cap5 c r1 /\ disjoint o1 4 o2 (cap5 c r2).
+Print Assumptions five_link_write_safe.
+
+(* pinned code: capacity above 4 GiB - the block at offset 2^32 is issued as MemOffset 0 again *)
+Theorem five_offset_wrap_refuted :
+  exists c ops, new_ok5 Pinned c = true /\
+    live5 (final5 Pinned c ops) = [(0, 4294967288); (4294967288, 8); (0, 8)] /\
+    ~ disjoint 0 4294967288 0 8.
+Proof. exact five_offset_wrap_refuted_proof. Qed.
+Check five_offset_wrap_refuted :
+  exists c ops, new_ok5 Pinned c = true /\
+    live5 (final5 Pinned c ops) = [(0, 4294967288); (4294967288, 8); (0, 8)] /\
+    ~ disjoint 0 4294967288 0 8.
+Print Assumptions five_offset_wrap_refuted.
+
+(* pinned code: alignment 2 - the link of the freed block at offset 2 is misaligned and covers the live block at offset 4 *)
+Theorem five_small_align_refuted :
+  exists c ops, new_ok5 Pinned c = true /\
+    live5 (final5 Pinned c ops) = [(0, 2); (2, 2); (4, 2)] /\
+    2 mod 4 <> 0 /\ ~ disjoint 2 4 4 (cap5 c 2).
+Proof. exact five_small_align_refuted_proof. Qed.
+Check five_small_align_refuted :
+  exists c ops, new_ok5 Pinned c = true /\
+    live5 (final5 Pinned c ops) = [(0, 2); (2, 2); (4, 2)] /\
+    2 mod 4 <> 0 /\ ~ disjoint 2 4 4 (cap5 c 2).
+Print Assumptions five_small_align_refuted.
+
+(* level 4 of the family (ThreadLocalPool), the code as it is: an offset into the per-thread arena and an offset into the shared
+   pool are both 0 - two live blocks carry the same MemOffset (finding five_tl_offset_alias) *)
+Theorem five_tl_offset_alias_refuted :
+  exists c arena ops, new_ok5 Fixed c = true /\
+    live5t (final5t c arena ops) = [(0, 8); (0, 1024)] /\ ~ disjoint 0 8 0 1024.
+Proof. exact five_tl_offset_alias_refuted_proof. Qed.
+Check five_tl_offset_alias_refuted :
+  exists c arena ops, new_ok5 Fixed c = true /\
+    live5t (final5t c arena ops) = [(0, 8); (0, 1024)] /\ ~ disjoint 0 8 0 1024.
+Print Assumptions five_tl_offset_alias_refuted.
+
+(* ------------------------------------------------------------------------------------------- *)
+(* ThreadLocalMemoryPool (ModelTL.v)                                                           *)
+(* ------------------------------------------------------------------------------------------- *)
+(* ThreadLocalMemoryPool (thread cache front end): for every arena size, cache bound and history of allocate / guard drop, two
+   live blocks lie in different arenas or are disjoint at their full class sizes; every live block is at least as large
+   as requested, 8-aligned, inside its arena, and its arena is one the cache still owns *)
+Theorem threadlocal_inv :
+  forall c ops,
+    let s := tl_final c ops in
+    (forall i j b1 r1 b2 r2, i <> j -> nth_error (tl_live s) i = Some (b1, r1) -> nth_error (tl_live s) j = Some (b2, r2) ->
+       fst b1 <> fst b2 \/ disjoint (snd b1) (tl_cap r1) (snd b2) (tl_cap r2)) /\
+    (forall b r, In (b, r) (tl_live s) ->
+       0 < r /\ r <= tl_cap r /\ snd b mod 8 = 0 /\ snd b + tl_cap r <= tl_arena c /\ fst b < tl_n (tl_p s)).
+Proof. exact threadlocal_inv_proof. Qed.
+Check threadlocal_inv :
+  forall c ops,
+    let s := tl_final c ops in
+    (forall i j b1 r1 b2 r2, i <> j -> nth_error (tl_live s) i = Some (b1, r1) -> nth_error (tl_live s) j = Some (b2, r2) ->
+       fst b1 <> fst b2 \/ disjoint (snd b1) (tl_cap r1) (snd b2) (tl_cap r2)) /\
+    (forall b r, In (b, r) (tl_live s) ->
+       0 < r /\ r <= tl_cap r /\ snd b mod 8 = 0 /\ snd b + tl_cap r <= tl_arena c /\ fst b < tl_n (tl_p s)).
+Print Assumptions threadlocal_inv.
+
+(* a request larger than an arena is refused and leaves the cache unchanged, in every reachable state *)
+Theorem threadlocal_refuses_over_capacity :
+  forall c ops size, tl_arena c < size ->
+    tl_alloc c (tl_p (tl_final c ops)) size = (None, tl_p (tl_final c ops)).
+Proof. exact threadlocal_refuses_proof. Qed.
+Check threadlocal_refuses_over_capacity :
+  forall c ops size, tl_arena c < size ->
+    tl_alloc c (tl_p (tl_final c ops)) size = (None, tl_p (tl_final c ops)).
+Print Assumptions threadlocal_refuses_over_capacity.
+
+(* a cached block is re-issued only from the list of the request's own class, whose block size holds the request *)
+Theorem threadlocal_reissue_fits :
+  forall c st size b st',
+    tl_alloc c st size = (Some b, st') -> tl_hot st' = tl_hot st -> tl_n st' = tl_n st ->
+    exists i, tl_class_of size = Some i /\ In (i, b) (tl_fl st) /\ size <= tl_class_size i.
+Proof. exact threadlocal_reissue_fits_proof. Qed.
+Check threadlocal_reissue_fits :
+  forall c st size b st',
+    tl_alloc c st size = (Some b, st') -> tl_hot st' = tl_hot st -> tl_n st' = tl_n st ->
+    exists i, tl_class_of size = Some i /\ In (i, b) (tl_fl st) /\ size <= tl_class_size i.
+Print Assumptions threadlocal_reissue_fits.
+
+(* a dropped guard returns its block for reuse: while the class list has room the next request of the class gets that block *)
+Theorem threadlocal_free_reuse :
+  forall c st b req i req2,
+    tl_class_of req = Some i -> countk i (tl_fl st) < tl_maxc c -> tl_class_of req2 = Some i -> 0 < req2 ->
+    fst (tl_alloc c (tl_free c st b req) req2) = Some b.
+Proof. exact threadlocal_free_reuse_proof. Qed.
+Check threadlocal_free_reuse :
+  forall c st b req i req2,
+    tl_class_of req = Some i -> countk i (tl_fl st) < tl_maxc c -> tl_class_of req2 = Some i -> 0 < req2 ->
+    fst (tl_alloc c (tl_free c st b req) req2) = Some b.
+Print Assumptions threadlocal_free_reuse.
+
+(* exhausted arenas are retained: the arena of a live block is still owned by the cache after any continuation of the history *)
+Theorem threadlocal_arenas_retained :
+  forall c ops ops' b r,
+    In (b, r) (tl_live (tl_final c ops)) -> fst b < tl_n (tl_p (tl_final c (ops ++ ops'))).
+Proof. exact threadlocal_arenas_retained_proof. Qed.
+Check threadlocal_arenas_retained :
+  forall c ops ops' b r,
+    In (b, r) (tl_live (tl_final c ops)) -> fst b < tl_n (tl_p (tl_final c (ops ++ ops'))).
+Print Assumptions threadlocal_arenas_retained.
+
+(* ------------------------------------------------------------------------------------------- *)
+(* TieredMemoryAllocator (ModelTiered.v)                                                       *)
+(* ------------------------------------------------------------------------------------------- *)
+(* TieredMemoryAllocator: for every configuration and every size, the pool deallocate chooses (from the size alone) is the
+   pool that served the allocation *)
+Theorem tiered_same_class_on_free :
+  forall c size,
+    match route_alloc c size with
+    | RSmall => free_pool RSmall size = Some 0%nat
+    | RMedium k => free_pool (RMedium k) size = Some (S k)
+    | _ => True
+    end.
+Proof. exact tiered_same_class_on_free_proof. Qed.
+Check tiered_same_class_on_free :
+  forall c size,
+    match route_alloc c size with
+    | RSmall => free_pool RSmall size = Some 0%nat
+    | RMedium k => free_pool (RMedium k) size = Some (S k)
+    | _ => True
+    end.
+Print Assumptions tiered_same_class_on_free.
+
+(* the tier a size is routed to holds it: small pool chunks for <= 1 KiB, otherwise the smallest medium class that is large enough *)
+Theorem tiered_route_fits :
+  forall c size,
+    match route_alloc c size with
+    | RSmall => 0 < size /\ size <= pool_chunk c 0 /\ t_small c = true
+    | RMedium k => 0 < size /\ (k < 5)%nat /\ size <= pool_chunk c (S k) /\ alloc_medium_index MEDIUM_CLASSES 0 size = Some k /\
+                   (forall k', (k' < k)%nat -> nth k' MEDIUM_CLASSES 0 < size)
+    | _ => True
+    end.
+Proof. exact route_alloc_fits. Qed.
+Check tiered_route_fits :
+  forall c size,
+    match route_alloc c size with
+    | RSmall => 0 < size /\ size <= pool_chunk c 0 /\ t_small c = true
+    | RMedium k => 0 < size /\ (k < 5)%nat /\ size <= pool_chunk c (S k) /\ alloc_medium_index MEDIUM_CLASSES 0 size = Some k /\
+                   (forall k', (k' < k)%nat -> nth k' MEDIUM_CLASSES 0 < size)
+    | _ => True
+    end.
+Print Assumptions tiered_route_fits.
+
+(* for every configuration and history of allocate / deallocate: a live pooled allocation holds a chunk created by a pool
+   whose chunk size is at least the request, and it will be freed into that same pool; distinct live allocations hold
+   distinct chunks; every pool's queue contains only chunks that pool created, none of them live *)
+Theorem tiered_inv :
+  forall c ops,
+    let s := t_final c ops in
+    (forall tag ch size, In (tag, ch, size) (tt_live s) -> pooled tag = true ->
+       0 < size /\ size <= pool_chunk c (fst ch) /\ free_pool tag size = Some (fst ch)) /\
+    (forall i j t1 c1 s1 t2 c2 s2, i <> j ->
+       nth_error (tt_live s) i = Some (t1, c1, s1) -> nth_error (tt_live s) j = Some (t2, c2, s2) ->
+       pooled t1 = true -> pooled t2 = true -> snd c1 <> snd c2) /\
+    (forall j ch, (j < 6)%nat -> In ch (mp_q (nth j (ts_pools (tt_p s)) (mkMP 0 []))) ->
+       fst ch = j /\ forall tag ch' size, In (tag, ch', size) (tt_live s) -> pooled tag = true -> snd ch' <> snd ch).
+Proof. exact tiered_inv_proof. Qed.
+Check tiered_inv :
+  forall c ops,
+    let s := t_final c ops in
+    (forall tag ch size, In (tag, ch, size) (tt_live s) -> pooled tag = true ->
+       0 < size /\ size <= pool_chunk c (fst ch) /\ free_pool tag size = Some (fst ch)) /\
+    (forall i j t1 c1 s1 t2 c2 s2, i <> j ->
+       nth_error (tt_live s) i = Some (t1, c1, s1) -> nth_error (tt_live s) j = Some (t2, c2, s2) ->
+       pooled t1 = true -> pooled t2 = true -> snd c1 <> snd c2) /\
+    (forall j ch, (j < 6)%nat -> In ch (mp_q (nth j (ts_pools (tt_p s)) (mkMP 0 []))) ->
+       fst ch = j /\ forall tag ch' size, In (tag, ch', size) (tt_live s) -> pooled tag = true -> snd ch' <> snd ch).
+Print Assumptions tiered_inv.
+
+(* ------------------------------------------------------------------------------------------- *)
+(* SecureMemoryPool chunk bookkeeping (ModelSecure.v)                                          *)
+(* ------------------------------------------------------------------------------------------- *)
+(* SecureMemoryPool chunk bookkeeping: for every local_cache_size and every history of allocate / guard drop, every chunk the
+   pool ever created is in exactly one place - the local cache, the shared stack, or handed out - and nothing else is *)
+Theorem secure_no_chunk_lost :
+  forall lcache ops x,
+    let s := s_final lcache ops in
+    occ x (sc_cache (ss_p s)) + occ x (sc_stack (ss_p s)) + occ x (ss_live s) = if x <? sc_n (ss_p s) then 1 else 0.
+Proof. exact secure_no_chunk_lost_proof. Qed.
+Check secure_no_chunk_lost :
+  forall lcache ops x,
+    let s := s_final lcache ops in
+    occ x (sc_cache (ss_p s)) + occ x (sc_stack (ss_p s)) + occ x (ss_live s) = if x <? sc_n (ss_p s) then 1 else 0.
+Print Assumptions secure_no_chunk_lost.
+
+(* dropping the guard of a live chunk is never reported as a double free: the chunk goes on top of the local cache or of the shared stack *)
+Theorem secure_free_accepted :
+  forall lcache ops l1 l2 ch,
+    ss_live (s_final lcache ops) = l1 ++ ch :: l2 ->
+    exists p', s_free lcache (ss_p (s_final lcache ops)) ch = (true, p') /\
+      (sc_cache p' = ch :: sc_cache (ss_p (s_final lcache ops)) \/ sc_stack p' = ch :: sc_stack (ss_p (s_final lcache ops))).
+Proof. exact secure_free_accepted_proof. Qed.
+Check secure_free_accepted :
+  forall lcache ops l1 l2 ch,
+    ss_live (s_final lcache ops) = l1 ++ ch :: l2 ->
+    exists p', s_free lcache (ss_p (s_final lcache ops)) ch = (true, p') /\
+      (sc_cache p' = ch :: sc_cache (ss_p (s_final lcache ops)) \/ sc_stack p' = ch :: sc_stack (ss_p (s_final lcache ops))).
+Print Assumptions secure_free_accepted.
+
+(* the active-allocation table maps exactly the handed-out chunks to their generations (no stale entry, none missing) *)
+Theorem secure_active_exact :
+  forall lcache ops,
+    let s := s_final lcache ops in
+    (forall ch, In ch (ss_live s) -> act_lookup (fst ch) (sc_active (ss_p s)) = Some (snd ch)) /\
+    (forall id g, act_lookup id (sc_active (ss_p s)) = Some g -> In (id, g) (ss_live s)).
+Proof. exact secure_active_exact_proof. Qed.
+Check secure_active_exact :
+  forall lcache ops,
+    let s := s_final lcache ops in
+    (forall ch, In ch (ss_live s) -> act_lookup (fst ch) (sc_active (ss_p s)) = Some (snd ch)) /\
+    (forall id g, act_lookup id (sc_active (ss_p s)) = Some g -> In (id, g) (ss_live s)).
+Print Assumptions secure_active_exact.
+
+(* deallocate_internal of a chunk that is not handed out (a second free, or a pointer the pool never issued) is reported as
+   an error and leaves the pool unchanged - a model-level statement: the RAII guards make this path unreachable for clients *)
+Theorem secure_double_free_detected :
+  forall lcache ops ch,
+    let s := s_final lcache ops in
+    occ (fst ch) (ss_live s) = 0 -> s_free lcache (ss_p s) ch = (false, ss_p s).
+Proof. exact secure_double_free_detected_proof. Qed.
+Check secure_double_free_detected :
+  forall lcache ops ch,
+    let s := s_final lcache ops in
+    occ (fst ch) (ss_live s) = 0 -> s_free lcache (ss_p s) ch = (false, ss_p s).
+Print Assumptions secure_double_free_detected.
+
+(* ------------------------------------------------------------------------------------------- *)
+(* MemoryPool (pool.rs, model in ModelTiered.v)                                                *)
+(* ------------------------------------------------------------------------------------------- *)
+(* MemoryPool: for every max_chunks and history of allocate / deallocate the handed-out chunks are pairwise distinct, the
+   queued chunks are pairwise distinct, no queued chunk is handed out, and the queue never exceeds max_chunks *)
+Theorem mempool_inv :
+  forall max ops,
+    let s := m_final max ops in
+    (forall i j c1 c2, i <> j -> nth_error (ms_live s) i = Some c1 -> nth_error (ms_live s) j = Some c2 -> snd c1 <> snd c2) /\
+    (forall i j c1 c2, i <> j -> nth_error (mp_q (ms_p s)) i = Some c1 -> nth_error (mp_q (ms_p s)) j = Some c2 -> snd c1 <> snd c2) /\
+    (forall c1 c2, In c1 (ms_live s) -> In c2 (mp_q (ms_p s)) -> snd c1 <> snd c2) /\
+    nlen (mp_q (ms_p s)) <= max.
+Proof. exact mempool_inv_proof. Qed.
+Check mempool_inv :
+  forall max ops,
+    let s := m_final max ops in
+    (forall i j c1 c2, i <> j -> nth_error (ms_live s) i = Some c1 -> nth_error (ms_live s) j = Some c2 -> snd c1 <> snd c2) /\
+    (forall i j c1 c2, i <> j -> nth_error (mp_q (ms_p s)) i = Some c1 -> nth_error (mp_q (ms_p s)) j = Some c2 -> snd c1 <> snd c2) /\
+    (forall c1 c2, In c1 (ms_live s) -> In c2 (mp_q (ms_p s)) -> snd c1 <> snd c2) /\
+    nlen (mp_q (ms_p s)) <= max.
+Print Assumptions mempool_inv.
+
+(* ------------------------------------------------------------------------------------------- *)
+(* MemoryMappedAllocator (ModelMmap.v)                                                         *)
+(* ------------------------------------------------------------------------------------------- *)
+(* MemoryMappedAllocator: for every min_mmap_size, page size (a power of two) and history of allocate / deallocate, every live
+   region is at least as large as requested, live regions are pairwise distinct, and no cached region is live *)
+Theorem mmap_inv :
+  forall min pg ops, pow2b pg = true ->
+    let s := mm_final min pg ops in
+    (forall r size, In (r, size) (mms_live s) -> size <= fst r) /\
+    (forall i j e1 e2, i <> j -> nth_error (mms_live s) i = Some e1 -> nth_error (mms_live s) j = Some e2 ->
+       snd (fst e1) <> snd (fst e2)) /\
+    (forall e r, In e (mms_live s) -> In r (mm_cache (mms_p s)) -> snd (fst e) <> snd r).
+Proof. exact mmap_inv_proof. Qed.
+Check mmap_inv :
+  forall min pg ops, pow2b pg = true ->
+    let s := mm_final min pg ops in
+    (forall r size, In (r, size) (mms_live s) -> size <= fst r) /\
+    (forall i j e1 e2, i <> j -> nth_error (mms_live s) i = Some e1 -> nth_error (mms_live s) j = Some e2 ->
+       snd (fst e1) <> snd (fst e2)) /\
+    (forall e r, In e (mms_live s) -> In r (mm_cache (mms_p s)) -> snd (fst e) <> snd r).
+Print Assumptions mmap_inv.
+
+(* a cached region is handed out only for a request that rounds to the very size the region was mapped and cached with *)
+Theorem mmap_reissue_fits :
+  forall min pg st size r st', pow2b pg = true ->
+    mm_alloc min pg st size = (Some (r, true), st') ->
+    In r (mm_cache st) /\ mm_round pg size = Some (fst r) /\ size <= fst r.
+Proof. exact mmap_reissue_fits_proof. Qed.
+Check mmap_reissue_fits :
+  forall min pg st size r st', pow2b pg = true ->
+    mm_alloc min pg st size = (Some (r, true), st') ->
+    In r (mm_cache st) /\ mm_round pg size = Some (fst r) /\ size <= fst r.
+Print Assumptions mmap_reissue_fits.
